@@ -8,9 +8,9 @@ use std::panic::{catch_unwind, AssertUnwindSafe};
 
 pub struct C09;
 
-pub const VOCAB: [&str; 40] = ["encrypt", "enc", "decrypt", "dec", "key", "generate", "gen", "change-pass", "extract-pub", "password", "pass", "--env-pass",
+pub const VOCAB: [&str; 44] = ["encrypt", "enc", "decrypt", "dec", "key", "generate", "gen", "change-pass", "extract-pub", "password", "pass", "--env-pass",
     "-t", "--to", "-f", "--from", "-o", "--output", "-k", "--keyring", "-h", "--help", "-v", "--version", "--", "-", "bob", "alice", "nobody", "in.bin", "out.bin", "kr.txt", "missing.bin",
-    "", "-x", "--to=bob", "-o=out.bin", "=", "é", "<SK>"];
+    "", "-x", "--to=bob", "-o=out.bin", "=", "é", "<SK>", "..", "nodir/..", ".", "/"];
 
 fn guard<T, F: FnOnce() -> T>(f: F) -> Option<T> { catch_unwind(AssertUnwindSafe(f)).ok() }
 
@@ -73,7 +73,7 @@ impl Prop for C09 {
     fn rule(&self) -> String {
         "per untrusted-input surface, under catch_unwind with overflow checks and debug assertions on: AEAD ciphertexts of every length 0..64 and 1 KiB; Noise handshake messages of every length 0..200, 65535, 65536 \
          (random, and prefixes / bit flips of a valid message); key-mode and password-mode files = every prefix of valid files, single-bit flips, hostile length and flag fields, wrong magics, appended bytes, random bytes; \
-         encoded public / private key strings over {base64 alphabet, padding, whitespace, UTF-8} with lengths 0..130; keyring texts; heap peak while rejecting hostile length fields; the real binary with every argument vector of length <= 2 over a 40-word vocabulary (commands, aliases, options in all spellings, values, oddities) and seeded longer vectors, in a world with files, environment and piped stdin but no terminal: exit status 0 or 1, an Error: line iff 1, no signal, no hang, and the same exit status and files as the Lean CLI model; argument vectors and a KESTREL_PASSWORD value containing invalid UTF-8 (5 byte patterns x 6 positions): exit 1 with an Error: line, nothing written; and the commands that take a password run with a terminal on standard input (a pseudo-terminal nobody types on) and a wrong or unset KESTREL_PASSWORD: they must terminate with exit 1. \
+         encoded public / private key strings over {base64 alphabet, padding, whitespace, UTF-8} with lengths 0..130; keyring texts; heap peak while rejecting hostile length fields; the real binary with every argument vector of length <= 2 over a 44-word vocabulary (incl. path oddities: empty, `.`, `..`, `nodir/..`, `/`) (commands, aliases, options in all spellings, values, oddities) and seeded longer vectors, in a world with files, environment and piped stdin but no terminal: exit status 0 or 1, an Error: line iff 1, no signal, no hang, and the same exit status and files as the Lean CLI model; argument vectors and a KESTREL_PASSWORD value containing invalid UTF-8 (5 byte patterns x 6 positions): exit 1 with an Error: line, nothing written; and the commands that take a password run with a terminal on standard input (a pseudo-terminal nobody types on) and a wrong or unset KESTREL_PASSWORD: they must terminate with exit 1. \
          compared: result class (ok | err | crash) of the implementation vs the Lean model; non-trivial = distinct (surface, length / mutation kind, outcome)".into()
     }
     fn cases(&self, tier: &str, seed: u64) -> Vec<Case> {
@@ -85,6 +85,10 @@ impl Prop for C09 {
             for mode in ["random", "prefix"] { v.push(case(&[("surface", "noise".into()), ("len", l.to_string()), ("mode", mode.into()), ("seed", rng.next().to_string())])); }
         }
         for _ in 0..(if th { 400 } else { 60 }) { v.push(case(&[("surface", "noise".into()), ("len", "128".into()), ("mode", "flip".into()), ("seed", rng.next().to_string())])); }
+        // the 7 low-order X25519 points (and their high-bit aliases): as the clear-text ephemeral key of a message of every interesting length, and as the
+        // AUTHENTIC encrypted static key of a message built by the independent writer (the refusal of the all-zero shared secret must be an error, not a panic)
+        for i in 0..7usize { for alias in [0usize, 1] { for len in [96usize, 128, 200] { v.push(case(&[("surface", "noise".into()), ("len", len.to_string()), ("mode", format!("loworder-e-{}-{}", i, alias)), ("seed", rng.next().to_string())])); }
+            v.push(case(&[("surface", "noise".into()), ("len", "128".into()), ("mode", format!("loworder-s-{}-{}", i, alias)), ("seed", rng.next().to_string())])); } }
         // files: every prefix of a small valid file (two modes), then mutations
         let (kf, _, _, _) = sample_key_file(7, 40);
         for cut in 0..=kf.len() { v.push(case(&[("surface", "keyfile".into()), ("how", "prefix".into()), ("cut", cut.to_string()), ("seed", "7".into())])); }
@@ -105,6 +109,8 @@ impl Prop for C09 {
             for b in 0..nv { v.push(case(&[("surface", "argv".into()), ("words", format!("{},{}", a, b)), ("seed", rng.next().to_string())])); } }
         for _ in 0..(if th { 10000 } else { 1500 }) { let n = rng.range(3, 9); let ws: Vec<String> = (0..n).map(|_| if rng.chance(1, 2) { rng.below(12).to_string() } else { rng.below(nv).to_string() }).collect(); v.push(case(&[("surface", "argv".into()), ("words", ws.join(",")), ("seed", rng.next().to_string())])); }
         // argument vectors and environment values that are not UTF-8
+        for cmd in ["encrypt", "decrypt", "pass-encrypt", "pass-decrypt"] { for path in ["", ".", "..", "/", "nodir/..", "/nodir/..", "nodir/", "nodir/.", "./", "kr/.."] {
+            v.push(case(&[("surface", "oddpath".into()), ("cmd", cmd.into()), ("path", path.into()), ("seed", rng.next().to_string())])); } }
         for pos in 0..6usize { for bad in ["ff", "c328", "eda080", "f8808080", "e28228"] { if th || pos % 2 == 0 || bad == "ff" { v.push(case(&[("surface", "osargs".into()), ("pos", pos.to_string()), ("bad", bad.into()), ("seed", rng.next().to_string())])); } } }
         // the same tool with a terminal on standard input (nobody types): it must still terminate
         for cmd in ["decrypt", "encrypt", "pass-decrypt", "extract-pub", "change-pass"] { for pw in ["wrong", "unset"] { v.push(case(&[("surface", "tty".into()), ("cmd", cmd.into()), ("pw", pw.into()), ("seed", rng.next().to_string())])); } }
@@ -134,7 +140,13 @@ impl Prop for C09 {
                 let mode = get(c, "mode");
                 let (rk, pro) = (rng.bytes(32), vec![0x65u8, 0x67, 0x6b, 0x10]);
                 let rpk = crate::props::c01::pub_of(&rk);
-                let msg: Vec<u8> = if mode == "random" { rng.bytes(len) } else if mode == "authentic-payload-len" {
+                let msg: Vec<u8> = if mode == "random" { rng.bytes(len) } else if mode.starts_with("loworder-") {
+                    let parts: Vec<&str> = mode.split('-').collect();
+                    let mut pt = unhex(crate::props::c19::LOW_ORDER[parts[2].parse::<usize>().unwrap_or(0) % 7]); if parts[3] == "1" { pt[31] |= 0x80; }
+                    if parts[1] == "e" { let mut mm = pt.clone(); let rest = rng.bytes(len.saturating_sub(32)); mm.extend_from_slice(&rest); mm }
+                    else { let s = rng.bytes(32); let e = rng.bytes(32); let pl = rng.bytes(32);
+                        crate::props::noisew::write_message(&pro, &rpk, &crate::props::noisew::Forge { e: &e, s_priv: &s, claimed_s: &pt, ss: crate::props::noisew::Ss::Skip, payload: &pl }).0 }
+                } else if mode == "authentic-payload-len" {
                     let s = rng.bytes(32); let e = rng.bytes(32); let pl = rng.bytes(len);
                     crate::props::noisew::write_message(&pro, &rpk, &crate::props::noisew::Forge { e: &e, s_priv: &s, claimed_s: &crate::props::c01::pub_of(&s), ss: crate::props::noisew::Ss::Honest, payload: &pl }).0
                 } else {
@@ -155,6 +167,21 @@ impl Prop for C09 {
                 o.nontrivial = Some(format!("noise/{}/{}/{}", msg.len(), mode, o.impl_obs));
                 if r.is_none() { fail_crash(&mut o, &format!("noise_decrypt ({}-byte handshake message)", msg.len())); }
                 else if o.impl_obs != o.model_obs { o.disagreement = Some(format!("impl {} model {}", o.impl_obs, o.model_obs)); }
+            }
+            "oddpath" => {
+                // complete, otherwise valid commands whose INPUT path is odd: empty, a directory, `..`, something below a directory that does not exist
+                use crate::cli::*;
+                let fx = fixtures();
+                let path = get(c, "path"); let cmd = get(c, "cmd");
+                let w = World { files: vec![("kr".into(), keyring(&[(&fx.alice, true), (&fx.bob, true)]).into_bytes())], env: vec![("KESTREL_PASSWORD".into(), fx.alice.pw.into())], stdin: vec![] };
+                let args: Vec<String> = match cmd { "encrypt" => sv(&["encrypt", path, "-t", "bob", "-f", "alice", "-o", "c", "-k", "kr", "--env-pass"]), "decrypt" => sv(&["decrypt", path, "-t", "alice", "-o", "c", "-k", "kr", "--env-pass"]),
+                    "pass-encrypt" => sv(&["password", "encrypt", path, "-o", "c", "--env-pass"]), _ => sv(&["password", "decrypt", path, "-o", "c", "--env-pass"]) };
+                let obs = run_kestrel(&w, &args);
+                o.impl_obs = format!("exit={:?} signal={} stderr={:?}", obs.exit, obs.signal, obs.stderr.chars().take(100).collect::<String>()); o.model_obs = "exit 1 with an Error: line".into();
+                o.nontrivial = Some(format!("oddpath/{}/{}", cmd, path)); o.tags.push(format!("odd input path -> exit {:?}", obs.exit));
+                let what = format!("kestrel {}", args.iter().map(|a| format!("{:?}", a)).collect::<Vec<_>>().join(" "));
+                if obs.signal || obs.timed_out || obs.exit != Some(1) { o.oracle_fail = Some(("exit-0-or-1".into(), format!("{}: exit {:?}, signal = {}, timed out = {}, stderr {:?}", what, obs.exit, obs.signal, obs.timed_out, obs.stderr.chars().take(200).collect::<String>()))); }
+                else if !obs.error_line() { o.oracle_fail = Some(("error-line-iff-exit-1".into(), format!("{}: exit 1 without an Error: line; stderr {:?}", what, obs.stderr))); }
             }
             "osargs" => {
                 use crate::cli::*;
